@@ -148,4 +148,73 @@ theorem hstep210 : ∀ L s q, Denotes 210 L s q → Denotes 210 L (specStep 210 
   unfold gapOf; rw [cls210_len]
   exact ⟨this.1, this.2.2.1⟩
 
+theorem walk_add (M : Nat) : ∀ (a b : Nat) (s : SP) (q : Nat),
+    walk M (a + b) s q = walk M b (walk M a s q).1 (walk M a s q).2 := by
+  intro a
+  induction a with
+  | zero => intro b s q; simp [walk]
+  | succ a ih =>
+    intro b s q
+    rw [show a + 1 + b = (a + b) + 1 by omega, walk_succ, walk_succ, ih]
+
+/-- the prime class (wheelIndex / SIZE) is the same after a step -/
+theorem specStep_group (M : Nat) (hpos : 0 < (cls M).length) (s : SP) :
+    (specStep M s).w / (cls M).length = s.w / (cls M).length := by
+  show (s.w / (cls M).length * (cls M).length + (s.w % (cls M).length + 1) % (cls M).length) / (cls M).length = _
+  rw [Nat.add_comm, Nat.add_mul_div_right _ _ hpos, Nat.div_eq_of_lt (Nat.mod_lt _ hpos)]
+  omega
+
+theorem walk_group (M : Nat) (hpos : 0 < (cls M).length) : ∀ (n : Nat) (s : SP) (q : Nat),
+    (walk M n s q).1.w / (cls M).length = s.w / (cls M).length := by
+  intro n
+  induction n with
+  | zero => intro s q; rfl
+  | succ n ih => intro s q; rw [walk_succ, ih, specStep_group M hpos]
+
+/-- the sieving prime a state stands for: 30·(p / 30) + (p mod 30) -/
+def primeOf (M : Nat) (s : SP) : Nat := 30 * s.sp + primeRes.getD (s.w / (cls M).length) 0
+
+theorem walk_prime (M : Nat) (hpos : 0 < (cls M).length) (n : Nat) (s : SP) (q : Nat) :
+    primeOf M (walk M n s q).1 = primeOf M s := by
+  unfold primeOf; rw [walk_sp, walk_group M hpos]
+
+theorem bit30_lt : ∀ r, r < 8 → ∀ k, k < 8 → (specRow 30 r k).1 < 8 := by decide +kernel
+theorem bit210_lt : ∀ r, r < 8 → ∀ k, k < 48 → (specRow 210 r k).1 < 8 := by decide +kernel
+theorem offs_ge7 : ∀ b, b < 8 → 7 ≤ offs.getD b 0 := by decide
+
+/-- **a segment clears every multiple that lies in it** (byte-level): from a state that denotes p·q relative to L, every
+    multiple p·x with x ≥ q coprime to the wheel whose byte lies in the segment of S bytes (p·x ≤ L + 30·S + 6) is cleared in
+    THIS segment, at its own byte (< S) and bit.  (That nothing else is cleared is C01_crossoff_one_segment: the list is
+    exactly the first n walk positions, and every walk position is such a multiple: C01_crossoff_walk_exact.) -/
+theorem crossSeg_clears (M L S : Nat) (hpos : 0 < (cls M).length)
+    (hstep : ∀ s q, Denotes M L s q → Denotes M L (specStep M s) (q + gapOf M s) ∧ 0 < gapOf M s)
+    (hreach : ∀ s q x, Denotes M L s q → q ≤ x → Nat.gcd x M = 1 → ∃ j, (walk M j s q).2 = x ∧ Denotes M L (walk M j s q).1 x)
+    (hbit : ∀ r, r < 8 → ∀ k, k < (cls M).length → (specRow M r k).1 < 8)
+    (s : SP) (q : Nat) (h : Denotes M L s q) (hsp : 0 < s.sp)
+    (x : Nat) (hx : q ≤ x) (hg : Nat.gcd x M = 1) (hin : primeOf M s * x ≤ L + 30 * S + 6) :
+    ∃ e ∈ (crossSeg M S (S + 1) s []).2, e.1 < S ∧ e.2 < 8 ∧ primeOf M s * x = L + 30 * e.1 + offs.getD e.2 0 := by
+  obtain ⟨n, _, h2, _, h4, _⟩ := crossSeg_spec M L S hstep (S + 1) s q [] h hsp (by omega)
+  obtain ⟨j, hj, hd⟩ := hreach s q x h hx hg
+  have hpos' := hd.pos
+  have hb : bitOf M (walk M j s q).1 < 8 := hbit _ hd.r_lt _ (Nat.mod_lt _ hpos)
+  have hp : (30 * (walk M j s q).1.sp + primeRes.getD ((walk M j s q).1.w / (cls M).length) 0) = primeOf M s := walk_prime M hpos j s q
+  rw [hp] at hpos'
+  have ho := offs_ge7 _ hb
+  have hidx : (walk M j s q).1.idx < S := by
+    unfold bitOf at ho
+    omega
+  have hjn : j < n := by
+    by_contra hge
+    have : (walk M n s q).1.idx ≤ (walk M j s q).1.idx := by
+      have e : j = n + (j - n) := by omega
+      rw [e, walk_add]
+      exact walk_idx_mono M (j - n) _ _
+    omega
+  refine ⟨((walk M j s q).1.idx, bitOf M (walk M j s q).1), ?_, hidx, hb, hpos'⟩
+  rw [h4, List.nil_append]
+  exact List.mem_map.mpr ⟨j, List.mem_range.mpr hjn, rfl⟩
+
+theorem walk_add' (M : Nat) (a b : Nat) (s : SP) (q : Nat) :
+    walk M (a + b) s q = walk M b (walk M a s q).1 (walk M a s q).2 := walk_add M a b s q
+
 end Ps.Wheel
